@@ -865,7 +865,7 @@ class Engine:
             else:
                 a, b, bits = a.off, b.off, 64
             ca, cb = a.__class__, b.__class__
-        if issubclass(ca, Undef) or issubclass(cb, Undef): return Undef(1)     # poison-like: only a *use* (branch, select condition, environment) is an error
+        if issubclass(ca, Undef) or issubclass(cb, Undef): return Undef(1)     # poison-like: only a *use* (branch, memory address, environment) is an error
         if ca is int and cb is int:
             if pred == 'eq': return int(a == b)
             if pred == 'ne': return int(a != b)
@@ -916,7 +916,7 @@ class Engine:
             return simp(z3.fpToIEEEBV(z3.fpRem(A, B)))
         return simp(z3.fpToIEEEBV(r(RNE, A, B)))
     def fcmp(s, pred, bits, a, b):
-        if isinstance(a, Undef) or isinstance(b, Undef): return Undef(1)       # poison-like, as icmp: only a use (branch, select condition, environment) is an error
+        if isinstance(a, Undef) or isinstance(b, Undef): return Undef(1)       # poison-like, as icmp: only a use (branch, memory address, environment) is an error
         if pred == 'true': return 1
         if pred == 'false': return 0
         if a.__class__ is int and b.__class__ is int:
@@ -1240,7 +1240,11 @@ class Engine:
             a = regs[a.n] if a.__class__ is Reg else a
             b = regs[b.n] if b.__class__ is Reg else b
             if c.__class__ is int: regs[dst] = a if c else b; return
-            if isinstance(c, Undef): raise Bug('undef', 'select on uninitialised value', s._m(st))
+            if isinstance(c, Undef):
+                # `select undef, a, b` is not undefined behaviour in LLVM (the result is either operand / poison): clang's if-conversion
+                # produces it speculatively, e.g. clamp(*opt) evaluated before the has_value test.  The RESULT is uninitialised; only a use
+                # of it that the language makes an error (branch, memory address, environment call) is reported.
+                regs[dst] = a if a is b else Undef(bits if bits else 64); return
             if a is b: regs[dst] = a; return
             ca, cb = a.__class__, b.__class__
             if ca in (P, FnPtr, Agg, Undef, Partial, Lin) or cb in (P, FnPtr, Agg, Undef, Partial, Lin) or bits == 0:
